@@ -3,7 +3,7 @@
    Model/Directives.v (insertWordBreaks, changeNewlineToBr, truncate,
    url.QueryEscape), Model/JsEscape.v (template.JSEscapeString, json.Marshal of
    a string); decoders: Spec/Codec.v, Spec/Html.v. *)
-From Soy Require Import Proofs.SourceTieDirectives.
+From Soy Require Import Proofs.SourceTieDirectives Proofs.SourceTieWordBreaks.
 From Soy Require Import Model.Bytes Generated.Tables Model.Utf8 Model.Num Model.Outcome Model.Values Model.Escape Model.Directives Model.JsEscape
   Model.JsonEncode Spec.Html Spec.Codec Spec.Json Proofs.Utf8Proofs Proofs.CodecProofs Proofs.CodecJsPair Proofs.CodecJsonNum Proofs.CodecJson Proofs.CodecJsonInert
   Model.JsDirectives Spec.JsUnits Proofs.CodecJsUnits Proofs.CodecJsAgree.
